@@ -47,11 +47,13 @@ def outcome_at(outcomes, val, hooks=None):
 
 
 def grid_compare(rep, rule, key, label, outcomes, grids, oracle,
-                 hooks=None, value_eq=None, where=None, skip=None):
+                 hooks=None, value_eq=None, where=None, skip=None,
+                 allow_cut=False, allow=()):
     """*grids*: {symbol term: iterable of python values}.
     *oracle(valuation by show(symbol)) -> ('return', v) | ('raise', name) |
     None (input outside the property's domain: skipped)."""
-    notes = inexact_notes(outcomes)
+    notes = inexact_notes([o for o in outcomes
+                           if not (allow_cut and o.kind == 'cut')], allow)
     if notes:
         rep.undecided(rule, key, '%s: interpretation inexact: %s' % (
             label, notes), where)
